@@ -199,3 +199,20 @@ def rules(ctx: Ctx) -> None:
     ctx.floor("functions reachable from result accessors", n_fn, 10)
     # ---- R11.4 the provider look-up keeps no memory between runs (= R13.5) -------------------------------
     common.import_rules(ctx, "C13", {"R13.5": "R11.4"})
+
+    # ---- R11.5 nothing written during one analysis is visible to the next (= R12.2: shared caches make a result depend on history)
+    common.import_rules(ctx, "C12", {"R12.2": "R11.5"})
+
+    # ---- R11.6 no statement reads a loop variable after its loop -----------------------------------------------------------
+    # (what is left in it is the last element in iteration order - or nothing, for an empty sequence; over a set that element depends on the hash seed)
+    from ..loopvar import leftover_uses
+
+    n_loops = 0
+    for f in prog.funcs.values():
+        if f.mod.name in ("sqllineage.cli", "sqllineage.drawing"):
+            continue
+        n_loops += len([1 for k in prog.walk_fn(f) if isinstance(k, ast.For)])
+        for L, use in leftover_uses(prog, f):
+            ctx.ob("R11.6", f"loop-variable-not-used-after-its-loop:{f.owner}:{use.id}", False, loc(f.mod, use),
+                   f"`{use.id}` is read after `for {u(L.target)} in {u(L.iter)[:40]}` (line {L.lineno}) ended without break: it names whichever element came last")
+    ctx.ob("R11.6", "loop-variable-not-used-after-its-loop:scanned", True, "sqllineage/", f"{n_loops} loops scanned", trivial=True)
